@@ -15,7 +15,10 @@ type zzStruct struct {
 	Items []int
 	inner int
 	Ptr   *zzStruct
+	Fn    func() int
+	When  *time.Time
 }
+func (z zzStruct) ValM() string { return "v" }
 func (z *zzStruct) Method() string { return "m" }
 func (z *zzStruct) Add(a, b int) int { return a + b }
 
@@ -29,7 +32,7 @@ func zzValues() []any {
 		map[string]int{"k": 1}, map[int]string{1: "a"}, map[zzMyString]int{"k": 1}, map[any]int{"k": 1},
 		zzStruct{Name: "n"}, &zzStruct{Name: "p", Items: []int{1}}, nilPtr, zzStringer{"<s>"}, zzMyString("ms"),
 		func() int { return 1 }, func(a int) int { return a }, func(s fmt.Stringer) string { return "x" }, func(a ...int) int { return len(a) },
-		func() (int, *Error) { return 5, nil }, func() (int, error) { var e *Error; return 5, e }, func() (*Value, *Error) { return nil, nil },
+		(func() int)(nil), func() (int, *Error) { return 5, nil }, func() (int, error) { var e *Error; return 5, e }, func() (*Value, *Error) { return nil, nil },
 	}
 }
 
@@ -87,7 +90,7 @@ func init() {
 	}`},
 		// name resolution: access paths into every catalogue value
 		replayCase{Prop: "", Pattern: `^(\(\*variableResolver\)\.resolve|argumentFits|fieldByName|\(\*Value\)\.[A-Za-z]+)/`, Imports: []string{},
-			Test: `	paths := []string{"v", "v.k", "v.0", "v.5", "v.Name", "v.name", "v.inner", "v.Items.0", "v.Ptr.Name", "v.Method", "v.Method()", "v.Add(1, 2)", "v.Add(1)", "v.Add(\"a\", 2)", "v()", "v(1)", "v(1, 2)", "v(\"s\")", "v(nil)", "v[0]", "v[\"k\"]", "v[k]", "v|length", "v|first", "v|last", "v|slice:\"1:2\"", "v|join:\",\"", "v|random"}
+			Test: `	paths := []string{"v", "v.k", "v.0", "v.5", "v.Name", "v.name", "v.inner", "v.Items.0", "v.Ptr.Name", "v.Method", "v.Method()", "v.ValM", "v.ValM()", "v.Ptr.ValM", "v.Fn", "v.Fn()", "v.When.Year", "v.When.Year()", "v.Add(1, 2)", "v.Add(1)", "v.Add(\"a\", 2)", "v()", "v(1)", "v(1, 2)", "v(\"s\")", "v(nil)", "v[0]", "v[\"k\"]", "v[k]", "v|length", "v|first", "v|last", "v|slice:\"1:2\"", "v|join:\",\"", "v|random"}
 	vals := zzValues()
 	done := false
 	for _, p := range paths {
